@@ -13,6 +13,11 @@ echo "property:  $PID"
 echo "signature: $SIG"
 python3 -c "import json,sys; d=json.load(open(sys.argv[1])); print('inputs:   ', json.dumps(d['replay'])[:2000]); print('observed: ', json.dumps(d['detail'])[:2000])" "$F"
 cd /verif || exit 2
+sh tools/build.sh default || exit 2
+# per-case replay without the explorer where the scenario kind has one (exit 3 = it has none)
+/verif/.build/default/release/vpcheck replay "$F"; rc=$?
+if [ $rc != 3 ]; then exit $rc; fi
+echo "(no per-case replayer for this scenario kind: re-running the whole check twice)"
 n=0
 for i in 1 2; do
   out=$(./check.sh "$PID" "${VERIF_TIER:-quick}" 2>&1)
